@@ -76,6 +76,7 @@ type Explorer struct {
 	SamplePaths []string
 	assertedOK  map[int]bool
 	SimHits     int
+	Sweeper *smt.Sweeper
 	SweepProved, SweepCandidates int
 	NoSim       bool
 }
